@@ -23,7 +23,7 @@ def suite_sk(tier: str, seed: int, mult: int) -> SuiteResult:
     res = SuiteResult("S-SK")
     d = Driver()
     work = Path(tempfile.mkdtemp(prefix="bbverif-sk-", dir=SCRATCH))
-    cnt = {"fits": 0, "packed": 0, "unpacked": 0, "compute_labels_off": 0, "queries": 0, "ties_in_sizes": 0, "multi_cluster": 0}
+    cnt = {"fits": 0, "packed": 0, "unpacked": 0, "compute_labels_off": 0, "queries": 0, "ties_in_sizes": 0, "multi_cluster": 0, "two_calls": 0}
     try:
         for k in range((120 if tier == "quick" else 1500) * mult):
             F = rng.choice(list(range(2, 25)) + [64, 65])
@@ -33,7 +33,14 @@ def suite_sk(tier: str, seed: int, mult: int) -> SuiteResult:
             compute = rng.random() < 0.7
             d.cmd(exp_table_line(len(rows) + 2))
             d.cmd(new_line(cfg))
-            d.cmd(f"FIT F={F} labels=- rows={rows_arg(F, rows)}")
+            # one call, or two calls on the same estimator (fit / partial_fit in any combination): the second call adds rows
+            cut = rng.randint(1, len(rows) - 1) if rng.random() < 0.4 else None
+            calls = [rng.choice(["fit", "partial_fit"]), rng.choice(["fit", "partial_fit", "partial_fit"])] if cut else None
+            if cut:
+                d.cmd(f"FIT F={F} labels=- rows={rows_arg(F, rows[:cut])}")
+                d.cmd(f"FIT F={F} labels=- rows={rows_arg(F, rows[cut:])}")
+            else:
+                d.cmd(f"FIT F={F} labels=- rows={rows_arg(F, rows)}")
             queries = [r for r in gen_rows(rng, F, rng.randint(1, 6)) if any(r)] or [[1] * F]
             mv = d.cmd(f"SK F={F} rows={rows_arg(F, queries)}")
             kw = {}
@@ -51,7 +58,17 @@ def suite_sk(tier: str, seed: int, mult: int) -> SuiteResult:
                 Xi, Qi, fkw = X, Q, {}
             use_fit_predict = rng.random() < 0.5
             try:
-                if use_fit_predict:
+                if cut:
+                    cnt["two_calls"] += 1
+                    getattr(est, calls[0])(Xi[:cut], **fkw)
+                    if calls[0] == "fit" or compute:
+                        _ = est.transform(Qi, **fkw) if hasattr(est, "subcluster_centers_") else None  # use the first state
+                    if use_fit_predict:
+                        labels = est.fit_predict(Xi[cut:], **fkw)
+                    else:
+                        getattr(est, calls[1])(Xi[cut:], **fkw)
+                        labels = est.labels_ if compute else est.get_assignments()
+                elif use_fit_predict:
                     labels = est.fit_predict(Xi, **fkw)
                 else:
                     est.fit(Xi, **fkw)
@@ -89,9 +106,18 @@ def suite_sk(tier: str, seed: int, mult: int) -> SuiteResult:
                     res.failures.append({"signature": "C18:labels-are-not-the-ranks-of-the-size-sorted-clusters",
                                          "what": f"labels {list(map(int, labels))[:12]} vs {want.tolist()[:12]}",
                                          "case": {"cfg": cfg, "F": F, "rows": rows, "packed": packed, "compute_labels": compute}})
+                # the centroids used by transform / predict are those of the CURRENT clusters, in rank order
+                wantC = []
+                for c in cl:
+                    ls = X[c].astype(np.int64).sum(axis=0)
+                    wantC.append(((2 * ls >= len(c)) if len(c) > 1 else (ls != 0)).astype(np.uint8).tolist())
+                if np.asarray(centers).astype(np.uint8).tolist() != wantC:
+                    res.failures.append({"signature": "C18:transform/predict-centroids-are-not-those-of-the-current-clusters",
+                                         "what": f"{len(centers)} centroids for {len(cl)} clusters" if len(centers) != len(cl) else "centroid rows differ",
+                                         "case": {"cfg": cfg, "F": F, "rows": rows, "packed": packed, "calls": calls, "cut": cut}})
                 # predict = a nearest centroid; transform = Jaccard distances
                 C = np.asarray(centers, dtype=bool)
-                for qi, q in enumerate(Q.astype(bool)):
+                for qi, q in enumerate(Q.astype(bool) if not res.failures else []):
                     dist = [(np.logical_xor(q, c).sum() / max(np.logical_or(q, c).sum(), 1)) for c in C]
                     if [float(x) for x in tr[qi]] != [float(x) for x in dist]:
                         res.failures.append({"signature": "C18:transform-is-not-the-jaccard-distance-to-each-centroid",
@@ -111,12 +137,95 @@ def suite_sk(tier: str, seed: int, mult: int) -> SuiteResult:
                                              "case": {"cfg": cfg, "F": F, "rows": rows}})
             if len(res.samples) < 2:
                 res.samples.append({"cfg": cfg, "F": F, "n_rows": len(rows), "packed": packed, "compute_labels": compute,
-                                    "fit_predict": use_fit_predict, "n_queries": len(queries)})
+                                    "fit_predict": use_fit_predict, "n_queries": len(queries), "calls": calls})
             if res.failures:
                 break
     finally:
         d.close()
         shutil.rmtree(work, ignore_errors=True)
+    res.counters = cnt
+    res.failures = res.failures[:1]
+    return res
+
+
+def suite_assign(tier: str, seed: int, mult: int) -> SuiteResult:
+    """get_assignments on states whose ids are NOT 0..n-1 once each (explicit reinsert labels with a
+    duplicate, a gap, an out-of-range id; a re-insertion without reset): refused, never a vector with
+    unlabeled entries; valid permutations of the labels: the ranks."""
+    from core import impl_out
+    from bblean.bitbirch import BitBirch
+    rng = random.Random(seed + 101)
+    res = SuiteResult("S-ASSIGN")
+    d = Driver()
+    cnt = {"cases": 0, "permuted_labels": 0, "duplicate_id": 0, "out_of_range_id": 0, "reinsertion_without_reset": 0, "refused": 0, "returned": 0}
+    try:
+        for k in range((150 if tier == "quick" else 3000) * mult):
+            F = rng.choice(list(range(2, 25)) + [64])
+            rows = gen_rows(rng, F, rng.randint(2, 40))
+            n = len(rows)
+            cfg = gen_cfg(rng)
+            kind = rng.choice(["perm", "dup", "dup", "oob", "refit"])
+            labels = list(range(n))
+            rng.shuffle(labels)
+            if kind == "dup":
+                i, j = rng.sample(range(n), 2)
+                labels[j] = labels[i]
+                cnt["duplicate_id"] += 1
+            elif kind == "oob":
+                labels[rng.randrange(n)] = n + rng.randint(0, 3)
+                cnt["out_of_range_id"] += 1
+            elif kind == "perm":
+                cnt["permuted_labels"] += 1
+            d.cmd(exp_table_line(2 * n + 2))
+            d.cmd(new_line(cfg))
+            kw = {}
+            if cfg["crit"] is not None:
+                kw["merge_criterion"] = cfg["crit"]
+            if cfg["tol"] is not None:
+                kw["tolerance"] = cfg["tol"]
+            t = BitBirch(threshold=cfg["thr"], branching_factor=cfg["bf"], **kw)
+            X = np.asarray(rows, dtype=np.uint8).reshape(n, F)
+            if kind == "refit":
+                cnt["reinsertion_without_reset"] += 1
+                d.cmd(f"FIT F={F} labels=- rows={rows_arg(F, rows)}")
+                d.cmd(f"FIT F={F} labels={show_nats(',', labels)} rows={rows_arg(F, rows)}")
+                t.fit(X, input_is_packed=False)
+                t.fit(X, input_is_packed=False, reinsert_indices=labels)
+            else:
+                d.cmd(f"FIT F={F} labels={show_nats(',', labels)} rows={rows_arg(F, rows)}")
+                t.fit(X, input_is_packed=False, reinsert_indices=labels)
+            mo = d.cmd("OUT")
+            io = impl_out(t)
+            res.evaluations += 1
+            cnt["cases"] += 1
+            pick = lambda s_: s_.split("assign=[")[1].split("]")[0] if "assign=[" in s_ else s_  # noqa: E731
+            if (pick(mo) != pick(io) or mo.split(" ")[0] != io.split(" ")[0]) and res.disagreement is None:
+                res.disagreement = {"what": "get_assignments with explicit labels", "kind": kind, "cfg": cfg, "F": F, "labels": labels,
+                                    "model": mo[:1500], "impl": io[:1500]}
+            case = {"cfg": cfg, "F": F, "rows": rows, "labels": labels, "kind": kind}
+            try:
+                a = t.get_assignments()
+                cnt["returned"] += 1
+                cl = t.get_cluster_mol_ids(sort=True)
+                if (np.asarray(a) == 0).any():
+                    res.failures.append({"signature": "C18:assignment-vector-returned-with-unlabeled-entries",
+                                         "what": f"ids {np.flatnonzero(np.asarray(a) == 0).tolist()[:8]} carry no label ({kind})", "case": case})
+                elif any(int(a[i]) != r for r, c in enumerate(cl, 1) for i in c):
+                    res.failures.append({"signature": "C18:labels-are-not-the-ranks-of-the-size-sorted-clusters", "what": kind, "case": case})
+                elif kind != "perm":
+                    res.failures.append({"signature": "C18:assignments-returned-for-ids-that-are-not-0..n-1-once-each", "what": kind, "case": case})
+            except (ValueError, IndexError):
+                cnt["refused"] += 1
+                if kind == "perm":
+                    res.failures.append({"signature": "C18:assignments-refused-for-a-valid-labelling", "what": kind, "case": case})
+            if kind == "perm":
+                res.nontrivial += 1
+            if len(res.samples) < 2:
+                res.samples.append({"kind": kind, "n": n, "labels": labels[:10], "assign": pick(io)[:60]})
+            if res.failures:
+                break
+    finally:
+        d.close()
     res.counters = cnt
     res.failures = res.failures[:1]
     return res
